@@ -21,6 +21,14 @@ func (in *Interp) ghostAccess(c *Cell, f *Frame) {
 	if f != nil && in.isPoolInternal(f.fn) {
 		return
 	}
+	if in.cur != nil {
+		// an access made on behalf of a pool method (sync/atomic helpers called by it) is the pool's own
+		for _, fr := range in.cur.frames {
+			if in.isPoolInternal(fr.fn) {
+				return
+			}
+		}
+	}
 	in.ghostViolation("use of pooled message after release")
 }
 
@@ -54,7 +62,9 @@ func (in *Interp) ghostCall(th *Thread, fn *ssa.Function, args []Value) {
 		if p, ok := args[1].(Ptr); ok && p.c != nil && p.c.obj != nil && p.c.obj.released {
 			in.ghostViolation("ghost: pooled message released twice without being re-acquired")
 		}
-	case strings.HasSuffix(rt, "pool.Message") && !callerInPool:
+	case strings.HasSuffix(rt, "pool.Message") && !callerInPool && fn.Name() != "IsHijacked":
+		// IsHijacked only reads the atomic ownership-transfer flag, which is not part of the recycled content and
+		// survives Reset: the receive path consults it to learn whether it still owns the message at all
 		if p, ok := args[0].(Ptr); ok && p.c != nil && p.c.obj != nil && p.c.obj.released {
 			in.ghostViolation("ghost: pooled message used after release")
 		}
